@@ -97,8 +97,7 @@ class GX:
                 self.by_site.setdefault(self.site(n.id), []).append(n.id)
 
     def site(self, nid):
-        n = self.g.nodes[nid]
-        return (n.inst, n.bb, n.kind, n.edge[1] if n.edge else None, bool(n.edge and n.edge[1] is None))
+        return self.g.site_of(nid)
 
     def same_site(self, nid):
         return self.by_site.get(self.site(nid), [nid])
@@ -113,10 +112,24 @@ class GX:
         return out
 
     # ---- event lookup
+    def rep(self, nid):
+        """representative of a site: the original node (threading clones have larger ids)"""
+        return min(self.g.members(nid))
+
+    def _reps(self, nids):
+        seen = set()
+        out = []
+        for n in nids:
+            r = self.rep(n)
+            if r not in seen:
+                seen.add(r)
+                out.append(r)
+        return out
+
     def atoms_on(self, *subs, ops=None):
         out = []
         for a in self.atoms.values():
-            if a.on(*subs) and (ops is None or a.op in ops):
+            if a.nid == self.rep(a.nid) and a.on(*subs) and (ops is None or a.op in ops):
                 out.append(a)
         return out
 
@@ -131,10 +144,10 @@ class GX:
             nm = g.call_name(n.id) or ''
             if r.search(nm) or r.search(n.call['name']):
                 out.append(n.id)
-        return out
+        return self._reps(out)
 
     def inlined(self, regex):
-        return self.g.inlined_calls(regex)
+        return self._reps(self.g.inlined_calls(regex))
 
     def aggs(self, regex):
         """live aggregate constructions 'adt::Variant' matching regex -> [(nid, si, rv)]"""
@@ -142,6 +155,7 @@ class GX:
         g = self.g
         live = g.live()
         out = []
+        seen = set()
         for n in g.nodes:
             if n.id not in live or n.kind != 'block':
                 continue
@@ -149,7 +163,10 @@ class GX:
                 if s['k'] == 'assign' and s['rv']['k'] == 'agg' and s['rv']['ak'] == 'adt':
                     nm = '%s::%s' % (s['rv']['adt'], s['rv']['variant'])
                     if r.search(nm):
-                        out.append((n.id, si, s['rv']))
+                        rp = self.rep(n.id)
+                        if (rp, si) not in seen:
+                            seen.add((rp, si))
+                            out.append((rp, si, s['rv']))
         return out
 
     def agg_expr(self, nid, si):
@@ -164,13 +181,13 @@ class GX:
     def switches(self):
         g = self.g
         live = g.live()
-        return [n.id for n in g.nodes if n.kind == 'block' and n.id in live and n.term['k'] == 'switch']
+        return self._reps([n.id for n in g.nodes if n.kind == 'block' and n.id in live and n.term['k'] == 'switch'])
 
     def switch_edges(self, sid, want):
         """edge nodes of switch `sid` for want = 'zero' (value 0) / 'nonzero' / a value string"""
         g = self.g
         out = []
-        for sib in self.same_site(sid):
+        for sib in g.members(sid):
             for eid in g.nodes[sib].succs:
                 sw, v, oth = g.nodes[eid].edge
                 if want == 'zero' and v is not None and str(v) == '0':
@@ -182,29 +199,48 @@ class GX:
         return out
 
     def loads_in(self, e, deep=True):
-        """atomic events whose result the expression mentions"""
-        return [self.atoms[c] for c in self.g.call_nodes_in(e, deep=deep) if c in self.atoms]
+        """atomic events (site representatives) whose result the expression mentions"""
+        return [self.atoms[c] for c in sorted(self.calls_in(e, deep=deep)) if c in self.atoms]
 
     def calls_in(self, e, deep=True):
-        return self.g.call_nodes_in(e, deep=deep)
+        return {self.rep(c) for c in self.g.call_nodes_in(e, deep=deep)}
 
-    # ---- path predicates (clone-aware: a set of nodes collectively)
+    # ---- path predicates.  Identity is by *site*: jump threading clones nodes, and a node set
+    # always stands for every live node of the same sites.
+    def _exp(self, nids):
+        g = self.g
+        out = set()
+        for n in nids:
+            out.update(g.members(n))
+        return out
+
     def dom(self, aset, b):
-        """every path entry -> b passes through a node of aset"""
-        aset = set(aset)
-        if b in aset:
+        """every path entry -> (any node of b's site) passes through a node of aset's sites"""
+        aset = self._exp(aset)
+        bs = [m for m in self.g.members(b) if m in self.g.live()]
+        if not bs:
             return True
-        return b not in self.g.reachable(None, blocked=aset)
+        r = self.g.reachable(None, blocked=aset)
+        return not any(m in r for m in bs if m not in aset)
 
     def must(self, a, bset, exits=None):
         """every path from after a to an exit passes a node of bset"""
-        return self.g.must_pass(a, set(bset), exits)
-
-    def reaches(self, a, b, blocked=None):
-        return b in self.g.reach_after(a, blocked=set(blocked or ()))
+        bset = self._exp(bset)
+        return all(self.g.must_pass(m, bset, exits) for m in self.g.members(a) if m in self.g.live())
 
     def reach_from(self, a, blocked=None):
-        return self.g.reach_after(a, blocked=set(blocked or ()))
+        blocked = self._exp(blocked or ())
+        out = set()
+        for m in self.g.members(a):
+            if m in self.g.live():
+                out |= self.g.reach_after(m, blocked=blocked)
+        return self._exp(out)
+
+    def reaches(self, a, b, blocked=None):
+        return b in self.reach_from(a, blocked)
+
+    def reachable_entry(self, blocked=None):
+        return self._exp(self.g.reachable(None, blocked=self._exp(blocked or ())))
 
     def describe(self, nid):
         g = self.g
